@@ -29,7 +29,8 @@ type c05case struct {
 	TieP     uint64 `json:"tie_p"`
 	SameRole bool   `json:"same_role"`
 	UC       bool   `json:"use_candidate"`
-	Phase    string `json:"phase"` // "fresh" | "pending" (X has checks outstanding) | "connected"
+	Phase    string `json:"phase"`            // "fresh" | "pending" (X has checks outstanding) | "connected"
+	Layout   string `json:"layout,omitempty"` // "" pion's own attribute order | "role-last" role attribute right before MESSAGE-INTEGRITY | "role-last-nofp" the same without FINGERPRINT
 }
 
 func c05run(t *testing.T, cs c05case) (problems []string, outcome string) {
@@ -49,7 +50,8 @@ func c05run(t *testing.T, cs c05case) (problems []string, outcome string) {
 		selBefore := a.getSelectedPair()
 		nSent := len(sw.sentLog)
 		wasControlling := a.isControlling.Load()
-		req := sw.peerRequest(peerReqOpts{sameRole: cs.SameRole, tie: cs.TieP, tieSet: true, uc: cs.UC, nom: -1, prio: 0})
+		req := sw.peerRequest(peerReqOpts{sameRole: cs.SameRole, tie: cs.TieP, tieSet: true, uc: cs.UC, nom: -1, prio: 0,
+			roleLast: cs.Layout != "", noFP: cs.Layout == "role-last-nofp"})
 		sw.inject(sw.x.socks[0], sw.remotes[0].addr.String(), req)
 		emitted := sw.sentLog[nSent:]
 		var classes []string
@@ -187,18 +189,23 @@ func checkC05(c *runCtx) {
 						continue
 					}
 					for _, uc := range []bool{false, true} {
-						cs := c05case{Role: role, TieX: tx, TieP: tp, SameRole: true, UC: uc, Phase: phase}
-						probs, out := c05run(c.t, cs)
-						cases++
-						rel := "<"
-						if tx == tp {
-							rel = "="
-						} else if tx > tp {
-							rel = ">"
-						}
-						outcomes.note(role + "/" + phase + "/" + rel + "/" + out)
-						for _, p := range probs {
-							c.violation("", fmt.Sprintf("role=%s phase=%s tieX=%#x tieP=%#x uc=%v: %s", role, phase, tx, tp, uc, p), cs)
+						for _, layout := range []string{"", "role-last", "role-last-nofp"} {
+							if layout != "" && !(tx == tp || tx+1 == tp || tp+1 == tx) {
+								continue // the attribute order does not interact with the comparison: the adjacent and equal pairs suffice
+							}
+							cs := c05case{Role: role, TieX: tx, TieP: tp, SameRole: true, UC: uc, Phase: phase, Layout: layout}
+							probs, out := c05run(c.t, cs)
+							cases++
+							rel := "<"
+							if tx == tp {
+								rel = "="
+							} else if tx > tp {
+								rel = ">"
+							}
+							outcomes.note(role + "/" + phase + "/" + rel + "/" + out)
+							for _, p := range probs {
+								c.violation("", fmt.Sprintf("role=%s phase=%s tieX=%#x tieP=%#x uc=%v layout=%q: %s", role, phase, tx, tp, uc, layout, p), cs)
+							}
 						}
 					}
 				}
